@@ -32,6 +32,10 @@ def ops : List Op :=
    .reform 0 [.update updB, .params [⟨"rate", 736330, none, some "9"⟩]],
    .modify 1 (.annualize "b"), .reform 2 [.neutralize "b"],
    .modify 1 (.params [⟨"rate", 736330, some 736694, some "7"⟩])]
+/-- "the call returned normally" as a Boolean (for `decide`) -/
+def okB {ε α : Type} : Except ε α → Bool
+  | .ok _ => true
+  | .error _ => false
 end C14ex
 
 /-! ## The original is untouched -/
@@ -53,11 +57,11 @@ theorem C14_base_untouched (st : State) (ops : List Op)
   exact ⟨f.1, k, fun hC b hb => sysObs_agree f.1 hC hb⟩
 
 example : Closed C14ex.base.heap ∧ (∀ op ∈ C14ex.ops, op.targetsDerived C14ex.base.systems.length) ∧
-    C14ex.base.systems = [2] ∧ (run C14ex.base C14ex.ops).systems = [2, 9, 18, 26] := by decide +kernel
+    C14ex.base.systems = [2] ∧ (run C14ex.base C14ex.ops).systems = [2, 9, 17, 24] := by decide +kernel
 /-- the history is not idle: the clone really neutralised `a`, the reform really changed `rate` -/
 example : (varObs (run C14ex.base C14ex.ops).heap 9 "a").map (·.isNeutralized) = some true ∧
     (varObs (run C14ex.base C14ex.ops).heap 2 "a").map (·.isNeutralized) = some false ∧
-    paramObs (run C14ex.base C14ex.ops).heap 18 "rate" 736400 = some "9" ∧
+    paramObs (run C14ex.base C14ex.ops).heap 17 "rate" 736400 = some "9" ∧
     paramObs (run C14ex.base C14ex.ops).heap 2 "rate" 736400 = some "3" := by decide +kernel
 
 /-- **Every calculation of the original is unchanged**: whatever the store of inputs, the period
@@ -96,14 +100,8 @@ theorem C14_clone_is_copy (h : Heap) (src : Oid) (h' : Heap) (N : Oid) (hw : Sys
   obtain ⟨hge, eo, heo, hsys⟩ := hents e he
   exact ⟨hge, fun name => varObsVia_of_bound heo hsys name⟩
 
-example : ∃ r, cloneSys C14ex.base.heap 2 = .ok r ∧ r.2 = 9 := ⟨_, rfl, rfl⟩
-example : SysWF C14ex.base.heap 2 :=
-  ⟨_, _, _, rfl, rfl, rfl, by
-    intro e he
-    have : e = ("a", 7) ∨ e = ("b", 8) := by simpa using he
-    rcases this with rfl | rfl
-    · exact ⟨_, rfl⟩
-    · exact ⟨_, rfl⟩⟩
+example : C14ex.okB (cloneSys C14ex.base.heap 2) = true := by decide +kernel
+example : SysWF C14ex.base.heap 2 := sysWF_of_check (by decide +kernel)
 
 /-- **One modification is local**: it changes what its target resolves for the names it declares,
     and nothing else of the target — the other names resolve to the same observations, the
@@ -151,8 +149,8 @@ theorem C14_derived_is_base_plus_changes (h : Heap) (src : Oid) (mods : List Mod
         obtain ⟨eo, heo, hsys⟩ := hents e he
         exact varObsVia_of_bound (sp.keeps.keepEnt _ _ heo) hsys name
 
-example : ∃ h', reformSys C14ex.base.heap 2
-    [.update C14ex.updB, .params [⟨"rate", 736330, none, some "9"⟩]] = (h', .ok 9) := ⟨_, rfl⟩
+example : C14ex.okB (reformSys C14ex.base.heap 2
+    [.update C14ex.updB, .params [⟨"rate", 736330, none, some "9"⟩]]).2 = true := by decide +kernel
 example : "a" ∉ [Mod.update C14ex.updB, .params [⟨"rate", 736330, none, some "9"⟩]].flatMap Mod.touched := by decide
 
 /-! ## Updated variables -/
@@ -184,29 +182,12 @@ theorem C14_update_inherits (h : Heap) (X : Oid) (cls : ClassDef) (h' : Heap) (b
     have hd : dictGet cls.name m = some bid := by rw [← resolve_eq hs hm]; exact hr
     rw [hd] at hcons
     have hcw : constructWith cls (some bid) (some b) = .ok v := by
-      unfold construct at hcons; rw [hb] at hcons; exact hcons
+      unfold construct at hcons; dsimp only at hcons; rw [hb] at hcons; exact hcons
     obtain ⟨_, hbase, hvt, hdf, hent, hdp, hend, hsi, _, decl, hdecl, hfs⟩ := constructWith_some hcw
     obtain ⟨d1, d2, _, _⟩ := declaredFormulas_spec _ _ _ _ hdecl
-    have lX := look_of_getSys hs
-    have lM := look_of_getMap hm
-    have hMlt := lt_next_of_look h lM
-    have hXlt := lt_next_of_look h lX
     have hblt := lt_next_of_look h (look_of_getVar hb)
-    -- reading the new heap
-    have hb' : bindVar h s m cls.name v = (h.allocs [.var v]).put s.vars (.vmap (dictSet cls.name h.next m)) := rfl
-    have hs' : (bindVar h s m cls.name v).getSys X = some s := by
-      rw [hb', getSys_congr (look_put_ne _ _ (ne_of_look lM lX (by simp))),
-        getSys_congr (look_allocs_lt h _ hXlt)]; exact hs
-    have hm' : (bindVar h s m cls.name v).getMap s.vars = some (dictSet cls.name h.next m) := by
-      apply getMap_of_look
-      rw [hb', look_put, if_pos rfl,
-        if_pos (by rw [next_allocs]; exact Nat.lt_of_lt_of_le hMlt (Nat.le_add_right _ _))]
-    have hv' : (bindVar h s m cls.name v).getVar h.next = some v := by
-      apply getVar_of_look
-      rw [hb', look_put_ne _ _ (Nat.ne_of_lt hMlt), look_allocs, if_neg (Nat.lt_irrefl _), Nat.sub_self]; rfl
-    have hbk : (bindVar h s m cls.name v).getVar bid = some b := by
-      rw [hb', getVar_congr (look_put_ne _ _ (ne_of_look lM (look_of_getVar hb) (by simp))),
-        getVar_congr (look_allocs_lt h _ hblt)]; exact hb
+    obtain ⟨hres, hv', hkeep⟩ := bindVar_reads hs hm cls.name v
+    have hbk := hkeep _ _ hb
     have hbefore : ∀ d, (∀ p ∈ cls.formulas, d < p.1) → lastLE v.formulas d = lastLE b.formulas d := by
       intro d hall
       rw [hfs]
@@ -215,7 +196,7 @@ theorem C14_update_inherits (h : Heap) (X : Oid) (cls : ClassDef) (h' : Heap) (b
       rcases d1 p hp with ⟨n, hn, _⟩ | hnil
       · exact hall _ hn
       · cases hnil
-    refine ⟨h.next, v, by rw [resolve_eq hs' hm', dictGet_dictSet_self], hv', hbase, hbk,
+    refine ⟨h.next, v, hres, hv', hbase, hbk,
       Nat.ne_of_gt hblt, hvt, hdf, hent, hdp, hend, hsi, ?_, hbefore, ?_, ?_⟩
     · intro hnil
       rw [hnil] at hdecl
@@ -237,11 +218,12 @@ theorem C14_update_inherits (h : Heap) (X : Oid) (cls : ClassDef) (h' : Heap) (b
         = getFormula ⟨_, _, _, _, _, b.endDate, _, b.formulas, _⟩ d
       simp only [getFormula, hend', hbefore d hall]
 
-example : ∃ h', loadVariable C14ex.base.heap 2 C14ex.updB true = (h', .ok ()) ∧
-    resolve C14ex.base.heap 2 "b" = some 8 ∧
-    (varObs h' 2 "b").map (·.formulas) = some [(1, .base 2), (735964, .base 3), (736330, .base 4)] ∧
-    (varObs h' 2 "b").map (·.default) = some "5" ∧ (varObs h' 2 "b").map (·.endDate) = some (some 736694) :=
-  ⟨_, rfl, by decide +kernel, by decide +kernel, by decide +kernel, by decide +kernel⟩
+example :
+    let r := loadVariable C14ex.base.heap 2 C14ex.updB true
+    C14ex.okB r.2 = true ∧ resolve C14ex.base.heap 2 "b" = some 8 ∧
+    (varObs r.1 2 "b").map (·.formulas) = some [(1, .base 2), (735964, .base 3), (736330, .base 4)] ∧
+    (varObs r.1 2 "b").map (·.default) = some "5" ∧
+    (varObs r.1 2 "b").map (·.endDate) = some (some 736694) := by decide +kernel
 
 /-! ## Neutralised variables -/
 
@@ -274,32 +256,15 @@ theorem C14_neutralized_default (h : Heap) (X : Oid) (name : String) (h' : Heap)
   · rw [he] at hn
     simp only [Prod.mk.injEq, and_true] at hn
     subst hn
-    have lX := look_of_getSys hs
-    have lM := look_of_getMap hm
-    have hMlt := lt_next_of_look h lM
-    have hXlt := lt_next_of_look h lX
-    have hs' : (bindVar h s m name { c with isNeutralized := true }).getSys X = some s := by
-      show ((h.allocs [.var _]).put s.vars _).getSys X = some s
-      rw [getSys_congr (look_put_ne _ _ (ne_of_look lM lX (by simp))),
-        getSys_congr (look_allocs_lt h _ hXlt)]; exact hs
-    have hm' : (bindVar h s m name { c with isNeutralized := true }).getMap s.vars
-        = some (dictSet name h.next m) := by
-      apply getMap_of_look
-      show ((h.allocs [.var _]).put s.vars _).look s.vars = _
-      rw [look_put, if_pos rfl,
-        if_pos (by rw [next_allocs]; exact Nat.lt_of_lt_of_le hMlt (Nat.le_add_right _ _))]
-    have hv' : (bindVar h s m name { c with isNeutralized := true }).getVar h.next
-        = some { c with isNeutralized := true } := by
-      apply getVar_of_look
-      show ((h.allocs [.var _]).put s.vars _).look h.next = _
-      rw [look_put_ne _ _ (Nat.ne_of_lt hMlt), look_allocs, if_neg (Nat.lt_irrefl _), Nat.sub_self]; rfl
-    refine ⟨h.next, _, by rw [resolve_eq hs' hm', dictGet_dictSet_self], hv', Nat.le_refl _, rfl, ?_⟩
+    obtain ⟨hres, hv', _⟩ := bindVar_reads hs hm name { c with isNeutralized := true }
+    refine ⟨h.next, _, hres, hv', Nat.le_refl _, rfl, ?_⟩
     intro P _ store inputs start runF p
     exact (C14_neutralized_ignores_inputs _ rfl store inputs start runF p).2
 
-example : ∃ h', neutralizeVar C14ex.base.heap 2 "b" = (h', .ok ()) ∧
-    (varObs h' 2 "b").map (fun v => (v.isNeutralized, v.default)) = some (true, "5") :=
-  ⟨_, rfl, by decide +kernel⟩
+example :
+    let r := neutralizeVar C14ex.base.heap 2 "b"
+    C14ex.okB r.2 = true ∧
+    (varObs r.1 2 "b").map (fun v => (v.isNeutralized, v.default)) = some (true, "5") := by decide +kernel
 
 /-! ## Annualised variables -/
 
@@ -324,33 +289,15 @@ theorem C14_annualized_formula_def (h : Heap) (X : Oid) (name : String) (h' : He
       rw [resolve_eq hs hm, hd] at hr; exact Option.some.inj hr
     subst hvid
     rw [hgv] at hv; cases hv
-    have lX := look_of_getSys hs
-    have lM := look_of_getMap hm
-    have hMlt := lt_next_of_look h lM
-    have hXlt := lt_next_of_look h lX
-    generalize hw : ({ c with formulas := v.formulas.map (fun p => (p.1, Fml.annual p.2)),
-                              isNeutralized := v.isNeutralized } : VarObj) = w
-    have hs' : (bindVar h s m name w).getSys X = some s := by
-      show ((h.allocs [.var _]).put s.vars _).getSys X = some s
-      rw [getSys_congr (look_put_ne _ _ (ne_of_look lM lX (by simp))),
-        getSys_congr (look_allocs_lt h _ hXlt)]; exact hs
-    have hm' : (bindVar h s m name w).getMap s.vars = some (dictSet name h.next m) := by
-      apply getMap_of_look
-      show ((h.allocs [.var _]).put s.vars _).look s.vars = _
-      rw [look_put, if_pos rfl,
-        if_pos (by rw [next_allocs]; exact Nat.lt_of_lt_of_le hMlt (Nat.le_add_right _ _))]
-    have hv' : (bindVar h s m name w).getVar h.next = some w := by
-      apply getVar_of_look
-      show ((h.allocs [.var _]).put s.vars _).look h.next = _
-      rw [look_put_ne _ _ (Nat.ne_of_lt hMlt), look_allocs, if_neg (Nat.lt_irrefl _), Nat.sub_self]; rfl
-    refine ⟨h.next, w, by rw [resolve_eq hs' hm', dictGet_dictSet_self], hv', Nat.le_refl _, ?_, ?_, ?_⟩
-    · rw [← hw]
-    · rw [← hw]
-    · intro d; rw [← hw]; exact lastLE_map_annual v.formulas d
+    obtain ⟨hres, hv', _⟩ := bindVar_reads hs hm name
+      { c with formulas := v0.formulas.map (fun p => (p.1, Fml.annual p.2)), isNeutralized := v0.isNeutralized }
+    exact ⟨h.next, _, hres, hv', Nat.le_refl _, rfl, rfl, fun d => lastLE_map_annual v0.formulas d⟩
 
-example : ∃ h', annualizeVar C14ex.base.heap 2 "b" = (h', .ok ()) ∧
-    (varObs h' 2 "b").map (·.formulas) = some [(1, .annual (.base 2)), (735964, .annual (.base 3))] :=
-  ⟨_, rfl, by decide +kernel⟩
+example :
+    let r := annualizeVar C14ex.base.heap 2 "b"
+    C14ex.okB r.2 = true ∧
+    (varObs r.1 2 "b").map (·.formulas) = some [(1, .annual (.base 2)), (735964, .annual (.base 3))] := by
+  decide +kernel
 
 /-- **January value for every month — partial.** For a request of an annualised monthly variable
     at a month `m ≠ 1` that is not itself known, with a formula in force, no frame of the same
@@ -375,14 +322,15 @@ theorem C14_annualized_january_partial (L : Nat) (dflt : String) (orig : Int →
     rw [List.filter_eq_nil_iff]
     intro f hf
     simpa using hstack f hf
-  have hfil2 : (stack ++ [⟨name, y, m⟩]).filter (fun f => decide (f.name = name)) = [⟨name, y, m⟩] := by
+  have hfil2 : (stack ++ [(⟨name, y, m⟩ : Frame)]).filter (fun f => decide (f.name = name))
+      = [(⟨name, y, m⟩ : Frame)] := by
     rw [List.filter_append, hfil]
     simp
+  have h0 : ¬ L ≤ 0 := by omega
   have step1 : annCalc L dflt orig inForce cache name (fuel + 2) stack y m
-      = annCalc L dflt orig inForce cache name (fuel + 1) (stack ++ [⟨name, y, m⟩]) y 1 := by
+      = annCalc L dflt orig inForce cache name (fuel + 1) (stack ++ [(⟨name, y, m⟩ : Frame)]) y 1 := by
     rw [annCalc, hcm]
-    simp only [hfil, List.any_nil, Bool.false_eq_true, if_false, List.length_nil, hforce]
-    rw [if_neg (by omega), if_pos hm]
+    simp [hfil, h0, hforce, hm]
   rw [step1, annCalc, annCalc]
   cases hc : cache y 1 with
   | some a => rfl
@@ -391,10 +339,8 @@ theorem C14_annualized_january_partial (L : Nat) (dflt : String) (orig : Int →
       rcases hJ with h | h
       · rw [hc] at h; cases h
       · exact h
-    simp only [hfil, hfil2, List.any_nil, List.any_cons, List.length_nil, List.length_cons, Bool.or_false]
-    have hne : ¬ (y = y ∧ m = 1) := fun c => hm c.2
-    simp only [decide_eq_true_eq, hne, if_false, Bool.false_eq_true]
-    rw [if_neg (by omega), if_neg (by omega)]
+    have h1 : ¬ L ≤ 1 := by omega
+    simp [hfil, hfil2, h0, h1, hm]
 
 example : annCalc 2 "0" (fun _ _ => "8") (fun _ _ => true) (fun _ _ => none) "a" 5 [] 2018 3 = .val "8" ∧
     annCalc 1 "0" (fun _ _ => "8") (fun _ _ => true)
@@ -515,11 +461,12 @@ theorem C14_params_one_update (h : Heap) (X : Oid) (u : PUpd) (h' : Heap) (hw : 
     simp only [List.filter_cons, this, List.filter_nil, List.map_nil, List.foldl_nil]
     rfl
 
-example : ∃ h', modifyParams (run C14ex.base [.clone 0]).heap 9 [⟨"rate", 736330, some 736694, some "7"⟩] = (h', .ok ()) ∧
-    paramObs h' 9 "rate" 736329 = some "3" ∧ paramObs h' 9 "rate" 736330 = some "7" ∧
-    paramObs h' 9 "rate" 736694 = some "7" ∧ paramObs h' 9 "rate" 736695 = some "3" ∧
-    paramObs h' 2 "rate" 736330 = some "3" :=
-  ⟨_, rfl, by decide +kernel, by decide +kernel, by decide +kernel, by decide +kernel, by decide +kernel⟩
+example :
+    let r := modifyParams (run C14ex.base [.clone 0]).heap 9 [⟨"rate", 736330, some 736694, some "7"⟩]
+    C14ex.okB r.2 = true ∧
+    paramObs r.1 9 "rate" 736329 = some "3" ∧ paramObs r.1 9 "rate" 736330 = some "7" ∧
+    paramObs r.1 9 "rate" 736694 = some "7" ∧ paramObs r.1 9 "rate" 736695 = some "3" ∧
+    paramObs r.1 2 "rate" 736330 = some "3" := by decide +kernel
 
 end OFCore
 
